@@ -166,6 +166,28 @@ def prelude_stress(rng, n=150):
 PRELUDE_INPUT = "a\nbc\nd\n\nef\ng\nh\nij\nk\nl\nm\nn\no\np"
 
 
+def area_pop_family(rng):
+    """a stack of small numbers with NaN at random depths (NaN is made by 1/0 above other values), then one
+    command with a nested ?/! tree: which branch is taken, and how many values each condition pops, shows
+    in the stacks afterwards (every condition pops exactly one value, NaN or not, and a NaN always takes the right)"""
+    prog = []
+    for _ in range(rng.randint(2, 7)):
+        v = rng.choice([0, 3, 3, 5, 1, "nan"])
+        if v == "nan":
+            prog += [C(0, 1, 0), C(4, 1, 4)]            # 0 -> 1/0 = NaN stays on the selected stack (above the others)
+        else:
+            prog.append(C(0, 1, v) if v else C(0, 1, 0))
+    def tree(depth):
+        if depth >= 3 or rng.random() < 0.3:
+            return H(rng.choice([2, 4, 5, 7, 9, 11])) if rng.random() < 0.8 else NIL
+        op = rng.choice([63, 33])
+        return [op] + tree(depth + 1) + tree(depth + 1)
+    ap = [rng.choice([63, 33])] + tree(1) + tree(1)
+    prog.append(C(1, 1, 3, ap))                          # count 3: ? takes left below 3, ! on 3
+    prog += [C(1, 1, 5) for _ in range(rng.randint(0, 3))]
+    return prog
+
+
 def fwdjump_family(rng):
     """a loop whose second pass takes a conditional jump FORWARD to a label registered further down on the
     first pass (jumps may lead to any command already seen, not only backwards)"""
@@ -263,8 +285,10 @@ def gen_cases(rng, n, flavor="mixed"):
             p = rand_soup(rng, rng.randint(1, 4)) + infinite_a() + rand_soup(rng, rng.randint(0, 3))
         elif r < 0.92:
             p = retjump_soup(rng, rng.randint(5, 12))
-        elif r < 0.95:
+        elif r < 0.94:
             p = fwdjump_family(rng)
+        elif r < 0.96:
+            p = area_pop_family(rng)
         else:
             p = CAT_LOOP if rng.random() < 0.5 else cat_n(rng.randint(1, 6))
             if rng.random() < 0.3:
